@@ -447,6 +447,7 @@ def complete_consumption(ctx, report, rule='C08.R10', scope=('cryptoparser/dnsre
     """A function that builds a parser over bytes it was handed and returns an object without that parser's parsed_length
     gives its caller no way to notice unread bytes: it has to test ``<parser>.unparsed_length`` itself (and raise), otherwise
     bytes after a fixed size key are dropped silently and the record is composed back shorter than it was."""
+    from ..astutil import returned
     report.rule(rule, 'a parser whose consumed length is not handed to the caller checks that nothing is left unread')
     for f in ctx.model.functions():
         if f.module.external or not f.module.relpath.startswith(scope) or not f.name.lstrip('_').startswith('parse'):
@@ -460,7 +461,7 @@ def complete_consumption(ctx, report, rule='C08.R10', scope=('cryptoparser/dnsre
             report.count(rule)
             report.touch(f)
             src = ast.unparse(f.node)
-            reported = any(isinstance(r, ast.Return) and r.value is not None and ('%s.parsed_length' % name) in ast.unparse(r.value) for r in ast.walk(f.node))
+            reported = any(('%s.parsed_length' % name) in ast.unparse(v) for v in returned(f.node))
             # a parser handed on to helpers that return nothing either is still this function's responsibility
             checked = any(isinstance(i, ast.If) and ('%s.unparsed_length' % name) in ast.unparse(i.test) and any(isinstance(x, ast.Raise) for x in ast.walk(i))
                           for i in ast.walk(f.node))
